@@ -130,6 +130,34 @@ func gen(c *common.Ctx, emit func(...string)) {
 		}
 		emit3(emit, ranks, out[0], out[1], out[2])
 	}
+	// lists with values of different types at the same position, nested up
+	// to two levels: the total order must look inside
+	for i := c.Scale(1500, 60000); i > 0; i-- {
+		x := RandValue(r, 1)
+		y := RandValue(r, 1)
+		z := Twin(r, x)
+		if r.Bool() {
+			z = RandValue(r, 1)
+		}
+		var pre []*V
+		for k := r.Intn(2); k > 0; k-- {
+			pre = append(pre, RandValue(r, 1))
+		}
+		wrap := func(e *V) *V {
+			l := List()
+			for _, p := range pre {
+				l.Elems = append(l.Elems, Twin(r, p))
+			}
+			l.Elems = append(l.Elems, e)
+			l.Sl = r.Intn(4) == 0
+			return l
+		}
+		a, b, cc := wrap(x), wrap(y), wrap(z)
+		if r.Intn(3) == 0 {
+			a, b, cc = List(a), List(b), List(cc)
+		}
+		emit3(emit, ranks, a, b, cc)
+	}
 	// strings
 	for i := c.Scale(500, 30000); i > 0; i-- {
 		emit3(emit, ranks, Str(RandStr(r)), Str(RandStr(r)), Str(RandStr(r)))
@@ -153,7 +181,7 @@ func gen(c *common.Ctx, emit func(...string)) {
 // ---- implementation -----------------------------------------------------------
 
 var (
-	probeOnce     sync.Once
+	probeOnce      sync.Once
 	fnProbe, fnNum eval.Callable
 )
 
@@ -442,6 +470,25 @@ func tagOf(v *V) int {
 	return 6 + v.T
 }
 
+// lexTotal is what compare &total must say about two lists: the first
+// position where the elements are not equal under compare &total decides
+// (the documentation: "compared lexicographically by elements, with elements
+// compared recursively"), then the lengths.
+func lexTotal(a, b *V) vals.Ordering {
+	for k := 0; k < len(a.Elems) && k < len(b.Elems); k++ {
+		if o := vals.CmpTotal(a.Elems[k].Go(), b.Elems[k].Go()); o != vals.CmpEqual {
+			return o
+		}
+	}
+	switch {
+	case len(a.Elems) < len(b.Elems):
+		return vals.CmpLess
+	case len(a.Elems) > len(b.Elems):
+		return vals.CmpMore
+	}
+	return vals.CmpEqual
+}
+
 func oracle(_ any, f []string, out string) (string, string) {
 	initProbes()
 	if out == "PANIC" || out == "TIMEOUT" {
@@ -517,6 +564,12 @@ func oracle(_ any, f []string, out string) (string, string) {
 			}
 			if C[i][j] != vals.CmpUncomparable && T[i][j] != C[i][j] {
 				return "total-disagrees-with-compare", fmt.Sprintf("(%d,%d): compare %s total %s", i, j, ordChar(C[i][j]), ordChar(T[i][j]))
+			}
+			if ds[i].K == 'L' && ds[j].K == 'L' {
+				if want := lexTotal(ds[i], ds[j]); T[i][j] != want {
+					return "total-list-not-lexicographic", fmt.Sprintf("(%d,%d): total %s, lexicographic by the elements' total order %s",
+						i, j, ordChar(T[i][j]), ordChar(want))
+				}
 			}
 			ti, tj := tagOf(ds[i]), tagOf(ds[j])
 			if ti != tj {
